@@ -250,6 +250,11 @@ def main():
             dict(reads=[("chunk", b"G1 X1"), ("again", None), ("again", None), ("again", None), ("again", None), ("again", None), ("again", None),
                         ("chunk", b"0 Y2\nok\n")], selects=[False, False, False, False, False, False]),
             dict(reads=[("chunk", b"ok\nErr"), ("chunk", b"or: "), ("chunk", b"halted")], selects=[]),
+            # long lines arriving in very many very small packets (no cap on the number of pending chunks)
+            dict(reads=[("chunk", bytes([b])) for b in (b"X:" + b"1234567890" * 12 + b" ok\nT:1\n")], selects=[]),
+            dict(reads=[r for i in range(0, 300, 2) for r in (("chunk", (b"ab" * 150 + b"\n")[i:i + 2]), ("again", None))][:-1]
+                       + [("chunk", b"\nok\n")], selects=[True, False] * 80),
+            dict(reads=[("chunk", bytes([65 + i % 26])) for i in range(700)] + [("chunk", b"\n")], selects=[]),
         ]
         cases = corpus + cases
     impl = []
@@ -317,7 +322,7 @@ def main():
     proof_broken_violation(run, st, found_input)
     run.cov["rule"] = ("random byte streams (4 alphabets, 0..3000 bytes) x 4 fragmentation styles (1-byte, random 1..256, "
                        "boundary sizes, cuts at/next to newlines) x random 'no data yet' results and selector "
-                       "timeouts, optional explicit EOF; corpus of 6 fixed cases first. non-trivial = >=3 script "
+                       "timeouts, optional explicit EOF; corpus of 10 fixed cases first (incl. long lines in 1-2 byte packets). non-trivial = >=3 script "
                        "entries and at least one non-empty result; distinct = distinct (reads, selects) scripts")
     run.finish(proof=st, extra=dict(
         input_distribution=dict(dist, histogram_key="number of script entries (bucket of 10)"),
